@@ -880,8 +880,18 @@ def own_writes_in_workdir(ctx):
     for sp in r.state_path_fns():
         ctx.check(bool(atom_callres(sp.prov.atoms(0)) & wdf), f"{short(sp.name)}/under-workdir", [sp.loc()], "the state file path is not under the work directory: writing it would be seen by the watcher as a change of the sources")
     for (b, bb, t, c) in sites:
-        at = b.prov.operand_atoms(t["args"][0]) if t["args"] else set()
-        ok = bool(atom_callres(at) & (spf | wdf)) or r._closure_captures_from(b, spf | wdf)
+        # judged in every context the write is spliced into (a `fn encode_to(path, ..)` helper gets its path from its callers)
+        copies = []
+        for root in r.containers(b):
+            rv = r.V(root)
+            copies += [(rv, nb) for nb in ([bb] if root.name == b.name else rv.locate_all(b.name, bb))]
+        copies = copies or [(b, bb)]
+        ok = True
+        for (rv, nb) in copies:
+            tv = rv.term(nb)
+            at = rv.prov.operand_atoms(tv["args"][0]) if tv["args"] else set()
+            if not (bool(atom_callres(at) & (spf | wdf)) or r._closure_captures_from(rv, spf | wdf) or r._closure_captures_from(b, spf | wdf)):
+                ok = False
         ctx.check(ok, f"{short(r.outer_fn(b).name)}/{t['callee']['base'].split('::')[-1]}", [site(b, bb)], "zinoma writes a file outside its work directory: its own write could trigger a rebuild loop in watch mode")
 
 
